@@ -19,7 +19,9 @@ FAILS = [("{{nope}}", "MissingVariable", True), ("{{nohelper 1}}", "HelperNotFou
          ("{{log 1 level=\"loud\"}}", "InvalidLoggingLevel", False), ("{{#nohelper 1}}x{{/nohelper}}", "HelperNotFound", False),
          ("{{@root.o.s.x}}", "MissingVariable", True), ("{{@root.arr.foo}}", "InvalidJsonIndex", False), ("{{#with nope}}x{{/with}}", "MissingVariable", True),
          ("{{eq 1}}", "ParamNotFoundForName", False), ("{{len nope}}", "ParamNotFoundForName", True)]
-FILL = ["text ", "é→ ", "{{@root.s}}", "\n", "\r\n", "\t", "  ", "{{! c }}", "x", "{{{@root.s}}} ", "{{@root.o.s}}", "😀"]
+FILL = ["text ", "é→ ", "{{@root.s}}", "\n", "\r\n", "\t", "  ", "{{! c }}", "x", "{{{@root.s}}} ", "{{@root.o.s}}", "😀",
+        " {{~@root.s}}", "{{@root.s~}} ", "  {{~@root.o.s~}}  ", "\n  {{~#if @root.t}}y{{/if}}", "{{#if @root.t~}} y {{~/if}}", " {{~> okp}}",
+        "{{{{raw}}}} r {{{{/raw}}}}", "{{#*inline \"il\"}}i{{/inline}}", "{{*sethelper \"lh\" \"L\"}}", "\\{{esc}}", "{{#> okp}}b{{/okp}}"]
 DATA = {"s": "S", "t": True, "f": False, "arr": [1, 2], "o": {"s": "v"}, "one": [7]}
 
 
@@ -100,8 +102,9 @@ def gen_case(rng, i):
     else:
         tmpls = {"main": ok_body() + "{{#each @root.one}}{{> p1}}{{/each}}", "p1": ok_body() + "\n  {{> p2}}\n", "p2": body}
         tname = "p2"
-    cfg = {"strict": strict, "escape": "none", "helpers": [{"name": "blk", "kind": "mark", "tag": "B"}]}
-    case = session(cfg, [(n, tmpls[n]) for n in ("p2", "p1", "main")], {"api": "render", "name": "main"}, DATA)
+    cfg = {"strict": strict, "escape": "none", "helpers": [{"name": "blk", "kind": "mark", "tag": "B"}],
+           "decorators": [{"name": "sethelper", "kind": "sethelper"}]}
+    case = session(cfg, [("okp", "P")] + [(n, tmpls[n]) for n in ("p2", "p1", "main")], {"api": "render", "name": "main"}, DATA)
     return case, {"name": tname, "line": line, "col": col, "reason": reason, "tag": tag, "where": where, "chain": chain_link}
 
 
